@@ -64,7 +64,7 @@ let rec p_times k st p = if k = 0 then [] else let x = p st in x :: p_times (k -
 let p_scalar p_f st =
   match next st with
   | "F" -> ScF (p_f st)
-  | "I" -> ScI (mz_of_z (BZ.of_string (next st)))
+  | "I" | "U" | "Z" | "L" | "H" -> ScI (mz_of_z (BZ.of_string (next st)))
   | t -> raise (Parse ("scalar kind " ^ t))
 
 let rec p_expr p_f st =
